@@ -38,6 +38,14 @@ theorem inc_path_independent (c : Cfg) (g1 g2 : Game) (h1 : Sync c g1) (h2 : Syn
 /-- the phase contributions regenerated from the source are what `piece_phase_value_contribution` says -/
 theorem phase_table : Gen.phaseContribution = #[0, 1, 1, 2, 4, 0] := by decide
 
+/-- **inc_along_game**: at every position of every game of legal moves the accumulators equal their
+recomputation from the board -/
+theorem inc_along_game (c : Cfg) (g : Game) (ms : List Move) (pos' : Rules.Pos) (hs : Sync c g)
+    (h : GInv (Rules.ofGame g)) (hp : LegalPath (Rules.ofGame g) ms pos') :
+    ∃ g', makeMoves c g ms = some g' ∧ Rules.ofGame g' = pos' ∧ g'.inc = Game.incInit c g'.board := by
+  obtain ⟨g', h1, h2, h3⟩ := game_sync c g ms pos' hs h hp
+  exact ⟨g', h1, h2, h3.inc⟩
+
 end Tcheran.Props.C15
 #print axioms Tcheran.Props.C15.inc_is_sum
 #print axioms Tcheran.Props.C15.inc_after_setAt
@@ -45,4 +53,5 @@ end Tcheran.Props.C15
 #print axioms Tcheran.Props.C15.inc_after_null
 #print axioms Tcheran.Props.C15.inc_along_path
 #print axioms Tcheran.Props.C15.inc_path_independent
+#print axioms Tcheran.Props.C15.inc_along_game
 #print axioms Tcheran.Props.C15.phase_table
